@@ -296,7 +296,7 @@ def check_project(ctx: core.Ctx, p: gen_project.Project, sde: str | None, stream
                   kinds: tuple[str, ...] = ("wheel", "editable"), apis: tuple[str, ...] = ("hook", "builder")) -> None:
     base = bc.scratch("pcv-c01-")
     try:
-        root = bc.materialise(p, parent=str(base))
+        root = bc.materialise(p, parent=str(base), dirname=p.meta.get("root_dirname", "proj"))
         witness_base = {"project": p.to_json(), "sde": sde}
         with bc.env(environ={"SOURCE_DATE_EPOCH": sde}):
             try:
